@@ -525,6 +525,13 @@ class SymList:
             return self.items[i]
         if isinstance(i, int) and i < 0 and self.entry is not None:
             return self.entry(self.prefix_len + len(self.items) + i)
+        if self.entry is not None and not self.items:
+            # L[j] inside the abstract prefix given by a closed form (0 <= j < len is an index obligation)
+            from .sym import SBool, SInt, cur
+            jz = SInt.lift(i)
+            if jz is not None:
+                cur().require("index.range", SBool.mk(z3.And(jz >= 0, jz < SInt.lift(self.prefix_len))), f"list index {jz} inside the list")
+                return self.entry(i)
         raise OutOfReach("read of an abstract list entry")
 
     def setitem(self, i, v):
